@@ -391,6 +391,14 @@ class FieldElem(EvalObj):
             return FieldElem(self.field, 0)
         return FieldElem(self.field, ppowmod(self.value, e % (self.field.size - 1), self.field.modulus.value))
 
+    def inverse(self):
+        if self.value == 0:
+            raise ZeroDivisionError("inverse of zero")
+        return self ** (self.field.size - 2)
+
+    def __truediv__(self, o):
+        return self * o.inverse()
+
     def __eq__(self, o):
         return isinstance(o, FieldElem) and o.value == self.value
 
